@@ -58,6 +58,8 @@ func NodeTaints(t *rapid.T, name string) []corev1.Taint {
 }
 
 // Toleration draws a valid toleration.
+var fiveMinutes = int64(300)
+
 func Toleration(t *rapid.T, name string) corev1.Toleration {
 	pool := []corev1.Toleration{
 		{Operator: corev1.TolerationOpExists},
@@ -70,6 +72,12 @@ func Toleration(t *rapid.T, name string) corev1.Toleration {
 		{Key: "maint", Operator: corev1.TolerationOpEqual, Value: ""},
 		{Key: "node.kubernetes.io/not-ready", Operator: corev1.TolerationOpExists, Effect: corev1.TaintEffectNoSchedule},
 		{Operator: corev1.TolerationOpExists, Effect: corev1.TaintEffectNoSchedule},
+		// the time-bounded tolerations the DefaultTolerationSeconds admission plugin puts on pods (and that get copied
+		// into templates): same key/operator/effect as a default DaemonSet toleration, but bounded
+		{Key: "node.kubernetes.io/not-ready", Operator: corev1.TolerationOpExists, Effect: corev1.TaintEffectNoExecute, TolerationSeconds: &fiveMinutes},
+		{Key: "node.kubernetes.io/unreachable", Operator: corev1.TolerationOpExists, Effect: corev1.TaintEffectNoExecute, TolerationSeconds: &fiveMinutes},
+		// and one that repeats a default verbatim
+		{Key: "node.kubernetes.io/disk-pressure", Operator: corev1.TolerationOpExists, Effect: corev1.TaintEffectNoSchedule},
 	}
 	return rapid.SampledFrom(pool).Draw(t, name)
 }
